@@ -41,6 +41,11 @@ def cases(quick):
                 for v in ('slowobj', 'many'):
                     out.append({'kind': kind, 'factory': factory, 'target': 'ret_value', 'args': [v], 'kwargs': {}, 'what': 'polling-caller/value:' + v,
                                 'poll': True})
+            if not factory:
+                # the caller waits without a time limit ("wait()"): the result has to be taken over while it waits
+                for v in ('b1m', 'nested') if quick else ('none', 'nested', 'b64k', 'b64k1', 'b208k1', 'b1m', 'b4m'):
+                    out.append({'kind': kind, 'factory': factory, 'target': 'ret_value', 'args': [v], 'kwargs': {}, 'what': 'untimed-wait/value:' + v,
+                                'untimed': True})
             if factory:
                 # the factory after the persistent factory has produced a worker of the same kind in this process (what every Pool does)
                 out.append({'kind': kind, 'factory': True, 'target': 'ret_value', 'args': ['nested'], 'kwargs': {}, 'what': 'factory-after-persistent-factory/value:nested',
@@ -125,7 +130,7 @@ def run(ctx):
         sc = pre + [create,
               {'op': 'call', 'var': 'w', 'method': 'is_alive', 'tag': 'alive0'},
               ({'op': 'poll_wait', 'var': 'w', 'step': 0.002, 'gap': 0.0, 'within': 30, 'tag': 'wait'} if c.get('poll') else
-               {'op': 'call', 'var': 'w', 'method': 'wait', 'args': [20], 'timeout': 30, 'tag': 'wait', 'stop_on_hang': False}),
+               {'op': 'call', 'var': 'w', 'method': 'wait', 'args': [] if c.get('untimed') else [20], 'timeout': 30, 'tag': 'wait', 'stop_on_hang': False}),
               {'op': 'get', 'var': 'w', 'attr': 'has_error', 'tag': 'has_error'},
               {'op': 'get', 'var': 'w', 'attr': 'result', 'tag': 'result'},
               {'op': 'get', 'var': 'w', 'attr': 'error', 'tag': 'error'},
